@@ -758,6 +758,50 @@ def reuse_case(perm):
     return {"vio": vio, "n": len(perm)}
 
 
+RESOLUTION_COMPS = ["tempo-dt1", "tempo-dt2", "free-dt1", "free-dt2", "td-dt2", "mf-dt2", "mf-dt1"]
+
+
+def resolution_case(perm):
+    """one System / TimeDependentSystem / MeanFieldSystem / Bath shared by computations at DIFFERENT time steps
+    (a convergence check), in every order; each result is compared with freshly constructed objects."""
+    def objs():
+        s_ = oq.TimeDependentSystemWithField(lambda t, a: 0.5 * M.SZ + np.real(a) * M.SX)
+        return {"bath": oq.Bath(0.5 * M.SX, M.ohmic(alpha=0.25, temperature=0.4)),
+                "sys": oq.System(0.5 * M.SZ + 0.2 * M.SX, gammas=[0.1], lindblad_operators=[M.SM]),
+                "tds": oq.TimeDependentSystem(M.td_hamiltonian),
+                "mf": oq.MeanFieldSystem([s_], lambda t, st, a: -0.1 * a - 0.1j * np.trace(M.SM @ st[0]))}
+    dts = {"dt1": DT, "dt2": 0.5 * DT}
+
+    def comp(name, o):
+        kind, dtn = name.rsplit("-", 1)
+        dt = dts[dtn]
+        n = 2 if dtn == "dt1" else 4
+        prm = oq.TempoParameters(dt=dt, epsrel=1e-9, dkmax=2)
+        if kind == "tempo":
+            return np.array(oq.Tempo(o["sys"], o["bath"], prm, M.RHO_GEN2, 0.0).compute((n + 0.4) * dt, progress_type="silent").states)[-1].ravel()
+        if kind == "free":
+            return np.array(oq.compute_dynamics(o["sys"], M.RHO_GEN2, dt=dt, num_steps=n, progress_type="silent").states)[-1].ravel()
+        if kind == "td":
+            return np.array(oq.compute_dynamics(o["tds"], M.RHO_GEN2, dt=dt, num_steps=n, start_time=0.3, progress_type="silent").states)[-1].ravel()
+        t = oq.MeanFieldTempo(o["mf"], [o["bath"]], prm, [M.RHO_GEN2], 0.5, 0.0)
+        return np.array(t.compute((n + 0.4) * dt, progress_type="silent").system_dynamics[0].states)[-1].ravel()
+    shared = objs()
+    vio = []
+    for i, name in enumerate(perm):
+        try:
+            got = comp(name, shared)
+            exp = comp(name, objs())
+        except Exception as ex:  # noqa
+            vio.append((f"resolution|{name}|exception:{type(ex).__name__}", f"order {perm}: {ex}"[:160]))
+            break
+        if got.shape != exp.shape or np.abs(got - exp).max() > 1e-6:
+            before = "+".join(sorted(set(x.rsplit("-", 1)[1] for x in perm[:i]))) or "nothing"
+            vio.append((f"resolution|{name.rsplit('-', 1)[0]}-after-runs-at-{before}|differs-from-fresh-objects",
+                        f"order {perm}: {name} on shared system/bath objects differs from fresh objects by "
+                        f"{np.abs(got - exp).max() if got.shape == exp.shape else 'shape'}"))
+    return {"vio": vio, "n": len(perm)}
+
+
 def run(tier, seed):
     rep = Report(LEVEL)
     depth = 4 if tier == "quick" else 5
@@ -827,12 +871,18 @@ def run(tier, seed):
         trans += r["n"]
         for cls, what in r["vio"]:
             rep.add(Violation(cls, what, {"part": "reuse", "perm": list(p)}))
+    rperms = list(itertools.permutations(RESOLUTION_COMPS, 3 if tier == "quick" else 4))
+    qres = pmap(resolution_case, rperms, seed=seed)
+    for p_, r in zip(rperms, qres):
+        trans += r["n"]
+        for cls, what in r["vio"]:
+            rep.add(Violation(cls, what, {"part": "resolution", "perm": list(p_)}))
     rep.coverage = {
         "states": len(states) + nl,
         "transitions": trans + nl,
         "traces_validated_against_impl": len(jobs) + nl + len(perms),
         "histories": len(jobs), "history_depth": depth, "layout_runs": nl, "apis_with_array_arguments": len(names),
-        "reuse_orders": len(perms), "bath_dynamics_query_histories": len(bh),
+        "reuse_orders": len(perms), "bath_dynamics_query_histories": len(bh), "resolution_orders": len(rperms),
         "exhaustive": tier == "thorough",
         "rule": "state = (current public parameter values of objects A and B, selected object, parameters the latest bath was "
                 "built with); every history over {E,B,R,T,S1,S2,X} up to the depth that ends in an observation is executed on real "
@@ -842,7 +892,8 @@ def run(tier, seed):
                 "of up to 3 (thorough 4) queries out of 8 (correlations at 6 time pairs, 2 occupations) on one TwoTimeBathCorrelations "
                 "object, optionally starting from a caller-supplied shorter table, each answer compared with a fresh object; process-tensor update: 4 kinds x "
                 "{in-memory, file-backed} x 5 use/get prefixes, then all tensors are replaced and the object must behave like a fresh one; reuse: orders of 7 computations (5 kinds + the same stacked Control object used twice) on "
-                "shared objects, a regular sub-sample of the 2520 distinct orders (quick every 40th, thorough every 6th)",
+                "shared objects, a regular sub-sample of the 2520 distinct orders (quick every 40th, thorough every 6th); resolution: every "
+                "ordered selection of 3 (thorough 4) out of 7 computations at two different time steps on shared system / bath objects",
         "samples": [{"kind": jobs[(17 * seed) % len(jobs)][0], "history": list(jobs[(17 * seed) % len(jobs)][1])},
                     {"layout": ["AugmentedMPS.gamma(rank2)", "T-view"]}, {"reuse": list(perms[0])}],
     }
@@ -863,6 +914,9 @@ def replay(rp):
     if rp["part"] == "ptupdate":
         a = rp["args"]
         r = pt_update_case((a[0], a[1], tuple(a[2])))
+        return {"obs": r["vio"], "violation": r["vio"][0][0] if r["vio"] else None}
+    if rp["part"] == "resolution":
+        r = resolution_case(tuple(rp["perm"]))
         return {"obs": r["vio"], "violation": r["vio"][0][0] if r["vio"] else None}
     if rp["part"] == "bathdyn":
         bd_env()
